@@ -169,7 +169,7 @@ theorem C13_abandon_is_fault (s s' : CS) (c : Nat) (h : step s (.abandon c) = so
     s.st = .connected ∧ s.recv = none ∧ s.conn = some c ∧ c ∈ s'.faulted ∧ (∃ s'', step s' (.writerClose c) = some s'') := by
   obtain ⟨t, ht, rfl⟩ := L13.step_eq_some.1 h
   simp only [stepCore, L13.guard_eq_some, Bool.and_eq_true, decide_eq_true_eq, Option.isNone_iff_eq_none] at ht
-  obtain ⟨⟨⟨⟨⟨h1, h2⟩, h3⟩, -⟩, -⟩, rfl⟩ := ht
+  obtain ⟨⟨⟨⟨⟨⟨h1, h2⟩, h3⟩, -⟩, -⟩, -⟩, rfl⟩ := ht
   refine ⟨h1, h2, h3, by simp, ?_⟩
   simp [step, stepCore, guard, h3]
 
